@@ -826,7 +826,13 @@ def series_computation(
         name: linear_operator_wrapped(series) for name, series in series.items()
     }
 
+    # Start values of each term: unlike computed elements they cannot be recomputed
+    # from the term's definition, so they are never deleted.
+    start_values = {}
+
     def del_(series_name, index: int) -> None:
+        if index in start_values.get(series_name, ()):
+            return
         series[series_name].pop(index, None)
         linear_operator_series[series_name].pop(index, None)
 
@@ -854,6 +860,7 @@ def series_computation(
         exec(compile(term.definition, filename="<string>", mode="exec"), eval_scope)
 
         series_data = data.get(term.start, None)
+        start_values[term.name] = series_data or {}
 
         series[term.name] = BlockSeries(
             eval=eval_scope["series_eval"],
